@@ -171,14 +171,20 @@ def extract_blocks(
     parts = tuple(sorted(set(part for a in arguments if (part := a.part()) is not None)))
     if parts == ():
         if i is None and j is None:
-            num_sub_elements = arguments[0].ufl_element().num_sub_elements
+            num_sub_elements = [a.ufl_element().num_sub_elements for a in arguments]
             # If form has no sub elements, return the form itself.
-            if num_sub_elements == 0:
+            if all(n == 0 for n in num_sub_elements):
                 return form
+            # An argument on a non-mixed space is a single block
+            num_blocks = [max(n, 1) for n in num_sub_elements]
             forms = []
-            for pi in range(num_sub_elements):
+            for pi in range(num_blocks[0]):
+                if arity == 1:
+                    f = fs.split(form, pi)
+                    forms.append(None if f.empty() else f)
+                    continue
                 form_i: list[object | None] = []
-                for pj in range(num_sub_elements):
+                for pj in range(num_blocks[1]):
                     f = fs.split(form, pi, pj)
                     if f.empty():
                         form_i.append(None)
